@@ -335,7 +335,7 @@ class Gen:
         for it in range(n):
             key, ct, parts, headers, body, _ = self.wf_case(True)
             b = bytearray(body)
-            op = rng.randrange(8)
+            op = rng.randrange(9)
             if op == 0 and b:
                 b[rng.randrange(len(b))] = rng.randrange(256)
             elif op == 1 and b:
@@ -353,6 +353,10 @@ class Gen:
                 if i >= 0:
                     j = i + rng.randrange(0, 30)
                     b[j:j + 1] = bytes([rng.choice(b'";=:\r\n \\')])
+            elif op == 7:   # CR/LF runs around the end of the header block (the naive CRLFCRLF scanner)
+                run = bytes(rng.choice(b"\r\n\r\nx") for _ in range(rng.randrange(2, 9)))
+                b = bytearray(b"--" + key + b"\r\nContent-Disposition: form-data; name=a" + run + rng.choice((b"", b"\r\n\r\n", b"\n\r\n")) +
+                              b"data\r\n--" + key + b"--\r\n")
             else:           # boundary with CR inside (outside the theorems' guard; model and code must still agree)
                 key = rng.choice((b"x\r\n--xy", b"a\rb", b"\r", b"q\r\n--q"))
                 ct = b"multipart/form-data; boundary=" + quote(key)
